@@ -53,10 +53,12 @@ NOT_YET = "check not built yet in this round (design in DESIGN.md section 3); no
 
 
 def main():
+    import subprocess
+    tracked = subprocess.check_output(["git", "-C", HERE, "ls-files", "checks"]).decode().split()
     checks, na = [], []
     for pid in sorted(T):
         tech, note = T[pid]
-        if glob.glob(os.path.join(HERE, "checks", pid.lower() + "*.py")):
+        if any(os.path.basename(t).startswith(pid.lower()) for t in tracked):
             checks.append({
                 "property_id": pid,
                 "quick_cmd": "/venv/bin/python run.py %s --tier quick" % pid,
